@@ -2,8 +2,9 @@
 plus model-free oracles.  Called by the harnesses of C15 / C13 / C10 as `correspond(chk, tier)`.
 
 Proved (Props/C15Nsga.lean, Props/C13Nsga.lean, Props/C10Nsga.lean): elite size / distinct members / whole better fronts
-first; crowding distance: boundary individuals get inf, distances are symmetric under negation of objectives (columns
-without ties), the tie ORDER is not (F-C13-1); whatever raw vector a crossover operator returns, `perform_crossover`
+first; crowding distance: boundary individuals get inf; distances AND (since the repair of F-C13-1: sort key
+(-distance, number)) the sorted order are symmetric under negation of objectives (columns without ties), the sorted
+front / the elite set do not depend on the input order; whatever raw vector a crossover operator returns, `perform_crossover`
 only ever returns members of the declared domain; a mutated (dropped) parameter is re-sampled independently.
 
 Tied here (every run, real code in-process against the compiled model on the same inputs):
@@ -22,8 +23,8 @@ Tied here (every run, real code in-process against the compiled model on the sam
   sampler    whole `NSGAIISampler` runs (real operators uniform/blx/sbx/vsbx/spx/undx, recording generator): every
              `select_parent` and every `sample_relative` is replayed through the model
   mirror     (C13) `_calc_crowding_distance` / `_crowding_distance_sort` on fronts without per-objective ties and on the
-             same fronts with a random subset of objectives negated: equal distances per trial, equal distance sequence
-             along the sorted fronts; the decided witnesses (F-C13-1 tie order, column tie) replayed on the real code
+             same fronts with a random subset of objectives negated: equal distances per trial, SAME sorted order; the
+             witness front of the repaired F-C13-1 and the column-tie witness replayed on the real code
 Translator: `translate(chk)` = T-nsga2 (verif/translators/nsga2_src.py): content keys of the 16 mirrored functions ->
 Generated/Nsga2Src.lean, checked by the `modelled_source_unchanged` obligations.
 Entry points for the harnesses c15.py / c13.py / c10.py: translate(chk) before chk.prove([... , "OptunaVerif.Props.CxxNsga"]),
@@ -301,8 +302,10 @@ def judge_crowd(R: Real, chk: core.Check, values: list[list[float]], numbers: li
     fd = {int(k): unbits(v) for k, v in f["dists"]}
     bad = [k for k in numbers if not same_float(fd.get(k, 0.0), rd[k])]
     if bad or f["after"] != after or f["sorted"] != order:
-        chk.broke("correspondence", {"stage": "crowd", "case": w, "what": "float instance of the model: after %s sorted %s dists %s" % (
-            f["after"], f["sorted"], {k: repr(v) for k, v in fd.items()})})
+        old = " [the code's order is the one of the sort BEFORE the repair of F-C13-1: sort(key=distance); reverse()]" if (
+            not bad and f["after"] == after and f.get("sortedOld") == order) else ""
+        chk.broke("correspondence", {"stage": "crowd", "case": w, "what": "float instance of the model: after %s sorted %s dists %s%s" % (
+            f["after"], f["sorted"], {k: repr(v) for k, v in fd.items()}, old)})
         return "tie"
     # -- the model, exact instance: wherever the float distances are exact --------------------------------------
     x = m["x"]
@@ -403,6 +406,14 @@ def judge_elite(R: Real, chk: core.Check, case: dict[str, Any], m: dict[str, Any
         chk.violation({"fn": "NSGAIIElitePopulationSelectionStrategy", "kind": "front-order"}, dict(w, ranks=truth),
                       "the elite population is not listed front by front: ranks %s" % levels)
         return
+    # -- order independence (`C15Nsga.elite_set_order_independent`): no per-objective ties => same elite set for the reversed population
+    if n >= 2 and values and all(len({row[i] for row in values}) == n for i in range(len(values[0]))):
+        got2 = call(strat, R.study(dirs), list(reversed(pop)))
+        chk.count("elite:order-independence checked")
+        if isinstance(got2, Exc) or sorted(t.number for t in got2) != sorted(sel):
+            chk.broke("correspondence", {"stage": "elite", "case": w, "what": "elite set %s for the population as listed, %s for the reversed list (no per-objective ties)" % (
+                sorted(sel), got2 if isinstance(got2, Exc) else sorted(t.number for t in got2))})
+            return
     # -- the model ------------------------------------------------------------------------------------------------
     if "elite" not in m:
         chk.broke("correspondence", {"stage": "elite", "case": w, "what": "the code returns %s, the model answers %s" % (sel, str(m)[:200])})
@@ -1030,20 +1041,26 @@ def stage_mirror(R: Real, chk: core.Check, n_cases: int) -> None:
                           "_crowding_distance_sort: the sequences of distances along the sorted fronts differ: %s vs %s" % ([da[k] for k in oa], [db[k] for k in ob]))
             continue
         if oa != ob:
-            chk.count("mirror:order-differs-inside-equal-distance-classes")
-        else:
-            chk.count("mirror:same-order")
+            # since the repair of F-C13-1 the order is a function of (distance, number): `C13Nsga.crowding_sort_mirror`
+            chk.violation({"site": "nsga2-crowding-tie-order", "level": "site", "attributed": True}, dict(w, order=oa, order_mirrored=ob, dist=str(da)),
+                          "_crowding_distance_sort: the front %s (numbers %s) is ordered %s, with objectives %s negated %s, although the crowding distances are equal "
+                          "trial by trial (%s): ties between equal distances are not broken symmetrically" % (
+                              w["values"], numbers, oa, [i for i, m in enumerate(mask) if m], ob, da))
+            continue
+        chk.count("mirror:same-order")
         chk.traces_validated += 1
-    # the decided witnesses of Props/C13Nsga.lean, replayed on the real code
+    # the witness front of the former finding F-C13-1, replayed on the real code: [0, 1] both ways since the repair
+    # (`crowding_old_tie_order_not_symmetric` is what the code did before: [1, 0] / [0, 1])
     _, o1 = run([[0.0, 0.0], [1.0, 1.0]], [0, 1])
     _, o2 = run([[0.0, -0.0], [1.0, -1.0]], [0, 1])
-    chk.extra["witness_crowding_tie_order"] = {"code": [o1, o2], "model": [[1, 0], [0, 1]]}
-    if (o1, o2) != ([1, 0], [0, 1]):
-        chk.broke("correspondence", {"stage": "mirror", "what": "witness of crowding_tie_order_not_symmetric: the code orders the front %s / mirrored %s, the model [1, 0] / [0, 1]" % (o1, o2)})
+    chk.extra["witness_crowding_tie_order"] = {"code": [o1, o2], "model": [[0, 1], [0, 1]], "model_before_repair": [[1, 0], [0, 1]]}
     if o1 != o2 and chk.pid == "C13":
         chk.violation(KNOWN_TIE_ORDER, {"kind": "witness", "which": "nsga2", "orders": [o1, o2]},
                       "NSGA-II _crowding_distance_sort: front {#0=(0,0), #1=(1,1)} of a (minimize, maximize) study is ordered %s, the same front of the mirrored "
-                      "(minimize, minimize) study %s: equal crowding distances (inf, inf) are ordered by the raw last objective" % (o1, o2))
+                      "(minimize, minimize) study %s: equal crowding distances (inf, inf) are not ordered symmetrically%s" % (
+                          o1, o2, " — exactly the behaviour before the repair of F-C13-1 (ties ordered by the raw last objective)" if (o1, o2) == ([1, 0], [0, 1]) else ""))
+    elif (o1, o2) != ([0, 1], [0, 1]):
+        chk.broke("correspondence", {"stage": "mirror", "what": "witness front: the code orders it %s / mirrored %s, the model [0, 1] / [0, 1]" % (o1, o2)})
     A = [[1.0, 0.0, 5.0], [1.0, 5.0, 0.0], [0.0, 6.0, 6.0], [3.0, -1.0, 7.0]]
     d1, _ = run(A, [0, 1, 2, 3])
     d2, _ = run([[-a, b, c] for a, b, c in A], [0, 1, 2, 3])
